@@ -25,6 +25,8 @@ import json
 import os
 import random
 import shutil
+import sys
+import time
 
 import c04_model as M
 import vlib
@@ -305,15 +307,28 @@ class Universe:
         return run
 
     def execute(self, thriftgo, runs, limit=30.0):
-        def one(run):
-            p = self.progs[run["pkey"]]
-            run["obs"] = M.observe(thriftgo, run["argv"], p["dir"], p["prog"], out=run["out"], limit=limit)
-            shutil.rmtree(os.path.join(p["dir"], run["out"]), ignore_errors=True)
-            return run
-        with concurrent.futures.ThreadPoolExecutor(max_workers=vlib.NCPU) as ex:
-            for k, _ in enumerate(ex.map(one, runs), 1):
-                if k % 5000 == 0:
-                    vlib.log("%d / %d runs done" % (k, len(runs)))
+        """the runs are made by a helper process with a small heap (lib/c04_model.py run)"""
+        self.nexec = getattr(self, "nexec", 0) + 1
+        mf = self.ctx.path("runs-%d.ndjson" % self.nexec)
+        of = self.ctx.path("obs-%d.ndjson" % self.nexec)
+        keys = {}
+        rows = []
+        for r in runs:
+            p = self.progs[r["pkey"]]
+            if r["pkey"] not in keys:
+                keys[r["pkey"]] = M.go_file_keys(p["prog"])
+            rows.append({"id": r["id"], "binary": thriftgo, "argv": r["argv"], "cwd": p["dir"], "keys": keys[r["pkey"]],
+                         "out": r["out"], "limit": limit})
+        vlib.write_ndjson(mf, rows)
+        self.ctx.run([sys.executable, os.path.join(vlib.VERIF, "lib", "c04_model.py"), "run", mf, of, str(vlib.NCPU)],
+                     timeout=36000)
+        by = {o["id"]: o for o in vlib.read_ndjson(of)}
+        if set(by) != {r["id"] for r in runs}:
+            raise vlib.MachineryError("the run helper returned %d observations for %d runs" % (len(by), len(runs)))
+        for r in runs:
+            r["obs"] = by[r["id"]]
+        os.remove(mf)
+        os.remove(of)
 
     def validate(self, runs, tag):
         """TLC judges the runs against layer A; returns (accepted ids, {id: broken})"""
@@ -476,11 +491,15 @@ def run(ctx, args):
         ids = {id(c) for c in chosen}
         todo = [c for c in todo if id(c) in ids]
         ctx.extra_cov["strata"] = len(groups)
+    t_render = time.time()
     for c in todo:
         u.add(c)
+    vlib.log("programs rendered in %.1fs" % (time.time() - t_render))
     vlib.log("%d cases (%d predicted stack overflows left out of %d), %d distinct programs" % (
         len(todo), len(skipped), len(slow), len(u.progs)))
+    t_exec = time.time()
     u.execute(thriftgo, u.runs)
+    vlib.log("%d runs executed in %.1fs" % (len(u.runs), time.time() - t_exec))
     acc, judged = u.validate(u.runs, "all")
 
     # a rejected run is executed once more; if the second observation differs it is judged again
@@ -592,7 +611,7 @@ def replay(ctx, thriftgo, path):
     d = ctx.mkdir("replay")
     syntax = {int(k): v for k, v in cs.get("syntax", {}).items()}
     main = M.write_program(prog, d, syntax)
-    obs = M.observe(thriftgo, M.argv_of(cs["cmd"], main, "out1"), d, prog, out="out1")
+    obs = M.observe(thriftgo, M.argv_of(cs["cmd"], main, "out1"), d, M.go_file_keys(prog), out="out1")
     row = {"prog": M.to_model(prog, syntax_bad=set(syntax)), "rules": [r for r in cs.get("rules", []) if r in IDL_RULES],
            "runs": [{"id": 1, "cmd": cs["cmd"], "obs": {k: obs[k] for k in ("exit", "diag", "crash", "files")}}]}
     f = ctx.path("obs-replay.ndjson")
